@@ -160,8 +160,11 @@ class AnsiDecoder:
                 iter_codes = iter(codes)
                 for code in iter_codes:
                     if code == 0:
-                        # reset
-                        self.style = _Style.null()
+                        # reset the attributes and colours; an open hyperlink (OSC 8) stays open
+                        link = self.style.link
+                        self.style = (
+                            _Style.null().update_link(link) if link else _Style.null()
+                        )
                     elif code in SGR_STYLE_MAP:
                         # styles
                         self.style += _Style.parse(SGR_STYLE_MAP[code])
